@@ -9,6 +9,13 @@ use crate::scen_slice::Focus;
 use serde_json::{json, Value as J};
 use std::collections::BTreeMap;
 
+/// every evaluation of a materialised case (replay, minimiser) runs on a thread of its own, so
+/// that it sees what a fresh process would see even if the crate under test keeps thread-local
+/// state across calls
+fn fresh<T: Send>(f: impl FnOnce() -> T + Send) -> T {
+    crate::driver::on_fresh_thread(f)
+}
+
 fn ev_base(prop: &'static str, tier: Tier, seed: u64, level: &'static str, rule: &str) -> Evidence {
     Evidence {
         prop,
@@ -51,10 +58,11 @@ impl Scenario for C07 {
         (r, c.map(|c| c.to_json()))
     }
     fn eval(&self, case: &J) -> Vec<Violation> {
-        crate::scen_read::eval(&StreamCase::from_json(case))
+        let c = StreamCase::from_json(case);
+        fresh(|| crate::scen_read::eval(&c))
     }
     fn minimise(&self, case: &J, sig: &str) -> J {
-        minimise(&StreamCase::from_json(case), sig, &crate::scen_read::eval, 60000).to_json()
+        minimise(&StreamCase::from_json(case), sig, &|c: &StreamCase| fresh(|| crate::scen_read::eval(c)), 60000).to_json()
     }
     fn case_for_run(&self, seed: u64, run: u64, tier: Tier) -> J {
         crate::scen_read::generate(seed, run, tier, &mut Stats::default()).0.to_json()
@@ -163,10 +171,11 @@ impl Scenario for C08 {
         (r, c.map(|c| c.to_json()))
     }
     fn eval(&self, case: &J) -> Vec<Violation> {
-        crate::scen_poll::eval(&StreamCase::from_json(case))
+        let c = StreamCase::from_json(case);
+        fresh(|| crate::scen_poll::eval(&c))
     }
     fn minimise(&self, case: &J, sig: &str) -> J {
-        minimise(&StreamCase::from_json(case), sig, &crate::scen_poll::eval, 60000).to_json()
+        minimise(&StreamCase::from_json(case), sig, &|c: &StreamCase| fresh(|| crate::scen_poll::eval(c)), 60000).to_json()
     }
     fn case_for_run(&self, seed: u64, run: u64, tier: Tier) -> J {
         crate::scen_poll::generate(seed, run, tier, &mut Stats::default()).to_json()
@@ -257,10 +266,11 @@ impl Scenario for C10 {
         (r, c.map(|c| c.to_json()))
     }
     fn eval(&self, case: &J) -> Vec<Violation> {
-        crate::scen_stat::eval(&StreamCase::from_json(case))
+        let c = StreamCase::from_json(case);
+        fresh(|| crate::scen_stat::eval(&c))
     }
     fn minimise(&self, case: &J, sig: &str) -> J {
-        minimise(&StreamCase::from_json(case), sig, &crate::scen_stat::eval, 60000).to_json()
+        minimise(&StreamCase::from_json(case), sig, &|c: &StreamCase| fresh(|| crate::scen_stat::eval(c)), 60000).to_json()
     }
     fn case_for_run(&self, seed: u64, run: u64, tier: Tier) -> J {
         crate::scen_stat::generate(seed, run, tier, &mut Stats::default()).to_json()
@@ -289,7 +299,7 @@ impl Scenario for C10 {
             "vector order of the statistics is not part of the property; results are compared as sorted maps".into(),
         ];
         e.fault_kinds = vec!["F-TRUNC"];
-        e.harness_probes = vec!["runs_with_interrupted", "runs_with_hard_error", "runs_with_early_eof", "F-TRUNC", "merges", "merge_empty_parts", "merge_identities", "merges_right_into_left_reversed"];
+        e.harness_probes = vec!["runs_with_interrupted", "runs_with_hard_error", "runs_with_early_eof", "F-TRUNC", "merges", "merge_empty_parts", "merge_identities", "merges_right_into_left_reversed", "wide_streams"];
         e.crate_probes = vec!["bucket_nonlog", "bucket_fatal", "bucket_error", "bucket_warn", "bucket_info", "bucket_debug", "bucket_verbose", "bucket_invalid"];
         e.step_keys = vec!["source_calls", "merges"];
         e
@@ -323,11 +333,13 @@ impl Scenario for Slice {
         (r, c.map(|c| c.to_json()))
     }
     fn eval(&self, case: &J) -> Vec<Violation> {
-        crate::scen_slice::eval_for(self.0)(&StreamCase::from_json(case))
+        let c = StreamCase::from_json(case);
+        let f = crate::scen_slice::eval_for(self.0);
+        fresh(|| f(&c))
     }
     fn minimise(&self, case: &J, sig: &str) -> J {
         let f = crate::scen_slice::eval_for(self.0);
-        minimise(&StreamCase::from_json(case), sig, &f, 60000).to_json()
+        minimise(&StreamCase::from_json(case), sig, &|c: &StreamCase| fresh(|| f(c)), 60000).to_json()
     }
     fn case_for_run(&self, seed: u64, run: u64, tier: Tier) -> J {
         crate::scen_slice::generate(self.0, seed, run, tier, &mut Stats::default()).to_json()
@@ -413,10 +425,11 @@ impl Scenario for C12 {
         (r, c.map(|c| c.to_json()))
     }
     fn eval(&self, case: &J) -> Vec<Violation> {
-        crate::scen_fibex::eval(&crate::scen_fibex::FibexCase::from_json(case))
+        let c = crate::scen_fibex::FibexCase::from_json(case);
+        fresh(|| crate::scen_fibex::eval(&c))
     }
     fn minimise(&self, case: &J, sig: &str) -> J {
-        crate::scen_fibex::minimise(&crate::scen_fibex::FibexCase::from_json(case), sig).to_json()
+        crate::scen_fibex::minimise_with(&crate::scen_fibex::FibexCase::from_json(case), sig, &|c: &crate::scen_fibex::FibexCase| fresh(|| crate::scen_fibex::eval(c)), 4000).to_json()
     }
     fn case_for_run(&self, seed: u64, run: u64, tier: Tier) -> J {
         crate::scen_fibex::generate(seed, run, tier, &mut Stats::default()).to_json()
